@@ -53,10 +53,26 @@ def headers():
     return out
 
 
+def _classify(directive, rest):
+    """One conditional as (kind, text, negated): kind 'defined' for a pure
+    defined-ness test of one macro (#ifdef M, #ifndef M, #if defined(M),
+    #if !defined M), else 'expr' (version tests, arithmetic, combinations)."""
+    rest = rest.strip()
+    if directive == "ifdef" and re.fullmatch(r"[A-Za-z_]\w*", rest.split()[0] if rest else ""):
+        return ("defined", rest.split()[0], False)
+    if directive == "ifndef" and re.fullmatch(r"[A-Za-z_]\w*", rest.split()[0] if rest else ""):
+        return ("defined", rest.split()[0], True)
+    m = re.fullmatch(r"(!?)\s*defined\s*(?:\(\s*([A-Za-z_]\w*)\s*\)|\s([A-Za-z_]\w*))", rest)
+    if directive == "if" and m:
+        return ("defined", m.group(2) or m.group(3), bool(m.group(1)))
+    return ("expr", f"#{directive} {rest}", False)
+
+
 def typedef_names(path):
-    """Own small reader: [(name, condition-macro-or-None)] for every
-    `typedef ... NAME;` of a header (comments removed, brace bodies skipped,
-    #ifdef nesting tracked; the file's own include guard is not a condition)."""
+    """Own small reader: [(name, conditions)] for every `typedef ... NAME;` of
+    a header (comments removed, brace bodies skipped).  conditions = tuple of
+    all enclosing conditionals (see _classify), the file's own include guard
+    excluded; #else negates a pure test, #elif makes the level an 'expr'."""
     with open(path, encoding="utf-8") as f:
         src = f.read()
     src = re.sub(r"/\*.*?\*/", " ", src, flags=re.S)
@@ -76,10 +92,16 @@ def typedef_names(path):
                     if d == "ifndef" and first_guard and not names:
                         conds.append(None)  # include guard
                     else:
-                        conds.append((d, rest))
+                        conds.append(_classify(d, rest))
                     first_guard = False
                 elif d == "endif":
-                    conds.pop()
+                    if conds:
+                        conds.pop()
+                elif d == "else" and conds and conds[-1] is not None:
+                    k, t, neg = conds[-1]
+                    conds[-1] = (k, t, not neg) if k == "defined" else ("expr", t + " / #else", False)
+                elif d == "elif" and conds and conds[-1] is not None:
+                    conds[-1] = ("expr", conds[-1][1] + f" / #elif {rest}", False)
             continue
         for ch in line + "\n":
             if ch == "{":
@@ -97,11 +119,24 @@ def typedef_names(path):
                     else:
                         ids = re.findall(r"[A-Za-z_]\w*", re.sub(r"\[[^\]]*\]", " ", st))
                         nm = ids[-1]
-                    active = [c for c in conds if c is not None]
-                    names.append((nm, active[-1] if active else None))
+                    names.append((nm, tuple(c for c in conds if c is not None)))
             else:
                 stmt += ch
     return names
+
+
+def excused(conds, macros):
+    """A name may be missing in a dialect only if an enclosing conditional is a
+    pure defined-ness test that is false for cpp's predefined macros of that
+    dialect.  Anything under another kind of #if is required everywhere."""
+    for kind, text, neg in conds:
+        if kind == "defined" and ((text in macros) == neg):
+            return True
+    return False
+
+
+def cond_text(conds):
+    return " && ".join((("!" if n else "") + f"defined({t})") if k == "defined" else t for k, t, n in conds) or "unconditional"
 
 
 def predefined_macros(std):
@@ -246,60 +281,80 @@ def _grid_work(task):
     return n, fails, nontrivial, hashes, ext_counts, compared
 
 
-def sweep_problems(ast, names, std_macros):
-    """The typedef sweep's own oracle on the AST parse_file returned."""
+def _sweep_work(task):
+    """One dialect x form: (1) parse the all-headers file and read off the
+    Typedef names T of the AST; every name of the reader that is not excused
+    must be in T; (2) rewrite the sweep file as all headers + `NAME v_i;` for
+    every reader name in T and parse it: each v_i must be a Decl of type NAME;
+    the result is compared with the by-hand pipeline."""
     from pycparser import c_ast
 
-    probs = []
-    tdefs = {e.name for e in ast.ext if isinstance(e, c_ast.Typedef)}
-    decls = {e.name: e for e in ast.ext if isinstance(e, c_ast.Decl)}
-    used = 0
-    for i, (nm, cond) in enumerate(names):
-        if cond is not None and not condition_holds(cond, std_macros):
-            continue
-        used += 1
-        d = decls.get(f"v_{i}")
-        ok = (
-            d is not None
-            and isinstance(d.type, c_ast.TypeDecl)
-            and isinstance(d.type.type, c_ast.IdentifierType)
-            and d.type.type.names == [nm]
-        )
-        if not ok:
-            probs.append((f"typedef-not-usable:{nm}", f"`{nm} v_{i};` did not become a Decl of type {nm}"))
-        if nm not in tdefs:
-            probs.append((f"typedef-missing:{nm}", f"no Typedef named {nm} in the AST after including every header"))
-    return probs, used
-
-
-def condition_holds(cond, macros):
-    d, rest = cond
-    if d == "ifdef":
-        return rest.split()[0] in macros
-    if d == "ifndef":
-        return rest.split()[0] not in macros
-    return False  # '#if expr': not understood -> the name is not required
-
-
-def sweep_tail(names, std_macros):
-    return "".join(
-        f"{nm} v_{i};\n" for i, (nm, cond) in enumerate(names)
-        if cond is None or condition_holds(cond, std_macros)
-    )
-
-
-def _sweep_work(task):
-    sc, hdrs, cfile, std, form, names, macros = task
-    prob, info = run_cell(cfile, std, form, sc)
+    sc, hdrs, all_file, sweep_file, std, form, names, macros = task
+    macros = set(macros)
+    case = {"headers": "all", "std": std, "form": form, "typedef_sweep": True}
     fails = []
-    used = 0
+    prob, info = run_cell(all_file, std, form, sc, reference=False)
     if prob:
-        fails.append((prob[0], {"headers": "all", "std": std, "form": form, "typedef_sweep": True}, prob[1]))
+        return [(prob[0], case, prob[1])], 0, None, []
+    T = {e.name for e in info["ast"].ext if isinstance(e, c_ast.Typedef)}
+    exc = sorted(n for n, c in names if excused(c, macros))
+    by_cond = {}
+    for n, c in names:
+        if n not in T and not excused(c, macros):
+            by_cond.setdefault(cond_text(c), []).append(n)
+    for ct, ns in by_cond.items():
+        sig = f"typedef-missing:under {ct}" if ct != "unconditional" else f"typedef-missing:{ns[0]}"
+        fails.append((sig, case, f"-std={std} {form} form: {len(ns)} type names of the fake typedef files are not defined "
+                                 f"after including every header: {ns}"))
+    declared = [(i, n) for i, (n, c) in enumerate(names) if n in T]
+    with open(sweep_file, "w") as f:
+        f.write("".join(f"#include <{h}>\n" for h in hdrs) + "".join(f"{n} v_{i};\n" for i, n in declared))
+    prob, info = run_cell(sweep_file, std, form, sc)
+    if prob:
+        fails.append((prob[0], case, prob[1]))
     if info["ast"] is not None:
-        ps, used = sweep_problems(info["ast"], names, set(macros))
-        for sig, det in ps:
-            fails.append((sig, {"headers": "all", "std": std, "form": form, "typedef_sweep": True}, f"-std={std} {form} form: {det}"))
-    return fails, used, info["ast"] is not None
+        decls = {e.name: e for e in info["ast"].ext if isinstance(e, c_ast.Decl)}
+        for i, n in declared:
+            d = decls.get(f"v_{i}")
+            ok = (d is not None and isinstance(d.type, c_ast.TypeDecl)
+                  and isinstance(d.type.type, c_ast.IdentifierType) and d.type.type.names == [n])
+            if not ok:
+                fails.append((f"typedef-not-usable:{n}", case, f"-std={std} {form} form: `{n} v_{i};` did not become a Decl of type {n}"))
+    return fails, len(declared), sorted(T), exc
+
+
+# ---------------------------------------------------------------------------
+# one scratch path rewritten with different contents inside one process
+# ---------------------------------------------------------------------------
+def _rewrite_work(task):
+    """task = (sc, path, [(index, header)], std, form).  The same path is
+    rewritten for each header of the chain (`#include <h>` + `int marker_i;`)
+    and parsed right away; every result must equal the by-hand pipeline run on
+    the file as it is at that moment and contain its own marker."""
+    from pycparser import c_ast
+
+    sc, path, chain, std, form = task
+    fails = []
+    steps = 0
+    prev = None
+    for idx, h in chain:
+        with open(path, "w") as f:
+            f.write(f"#include <{h}>\nint marker_{idx};\n")
+        prob, info = run_cell(path, std, form, sc)
+        steps += 1
+        case = {"rewrite_chain": [x for _, x in chain], "first_index": chain[0][0], "failing_header": h, "std": std, "form": form}
+        ast = info["ast"]
+        cur = core.canon(ast) if ast is not None else None
+        has = ast is not None and any(isinstance(e, c_ast.Decl) and e.name == f"marker_{idx}" for e in ast.ext)
+        if ast is not None and not has and prev is not None and cur == prev:
+            fails.append(("same-path-rewritten:stale-result", case,
+                          f"-std={std} {form} form: after rewriting the file for {h} parse_file returned the AST of the previous contents"))
+        elif prob:
+            fails.append((prob[0], case, f"[same path rewritten, now including {h}] {prob[1]}"))
+        elif not has:
+            fails.append(("same-path-rewritten:marker-missing", case, f"-std={std} {form} form: no Decl marker_{idx} after including {h}"))
+        prev = cur
+    return steps, fails
 
 
 def typedef_files():
@@ -365,25 +420,64 @@ def _run(R, tier, hs, S):
         ext_counts.update(ec)
         R.fail_many(fl)
 
+    # ---- one path rewritten (consecutive header pairs) --------------------------
+    CH = 8
+    chains = []
+    k = 0
+    for start in range(0, len(hs) - 1, CH):
+        chain = [(i, hs[i]) for i in range(start, min(start + CH + 1, len(hs)))]
+        for form in FORMS:
+            for std in (STDS if tier == "thorough" else [STDS[k % len(STDS)]]):
+                chains.append((sc, os.path.join(S.dir, f"scratch_{len(chains)}.c"), chain, std, form))
+        k += 1
+    rewrite_steps = 0
+    pairs_covered = set()
+    for (steps, fl), ch in zip(core.pmap(_rewrite_work, chains, chunksize=1), chains):
+        rewrite_steps += steps
+        R.fail_many(fl)
+        pairs_covered.update((a[0], b[0], ch[4]) for a, b in zip(ch[2], ch[2][1:]))
+    n_total += rewrite_steps
+    compared += rewrite_steps
+
     # ---- typedef sweep -------------------------------------------------------
     sweep_tasks = []
     for std in STDS:
-        cf = S.cfile(f"sweep_{std}.c", hs, sweep_tail(names, set(macros[std])))
         for form in FORMS:
-            sweep_tasks.append((sc, hs, cf, std, form, names, macros[std]))
+            sweep_tasks.append((sc, hs, all_fwd, os.path.join(S.dir, f"sweep_{std}_{form}.c"), std, form, names, macros[std]))
     used_names = []
     sweeps_ok = 0
-    for fl, used, ok in core.pmap(_sweep_work, sweep_tasks, chunksize=1):
+    tsets = {}
+    for (fl, used, T, exc), t in zip(core.pmap(_sweep_work, sweep_tasks, chunksize=1), sweep_tasks):
         R.fail_many(fl)
-        if ok:
+        if T is not None:
             used_names.append(used)
-        sweeps_ok += ok
-    n_total += len(sweep_tasks)
+            sweeps_ok += 1
+            tsets[(t[4], t[5])] = (set(T), set(exc))
+    n_total += 2 * len(sweep_tasks)
+    # differential clause: the usable type names are the same in all four dialects but for excused names
+    cond_of = {n: cond_text(c) for n, c in names}
+    dialect_diffs = 0
+    for form in FORMS:
+        for i, sa in enumerate(STDS):
+            for sb in STDS[i + 1:]:
+                if (sa, form) not in tsets or (sb, form) not in tsets:
+                    continue
+                (Ta, Ea), (Tb, Eb) = tsets[(sa, form)], tsets[(sb, form)]
+                dialect_diffs += 1
+                diff = sorted((Ta ^ Tb) - Ea - Eb)
+                groups = {}
+                for n in diff:
+                    groups.setdefault(cond_of.get(n, "defined by another header"), []).append(n)
+                for ct, ns in groups.items():
+                    R.fail(f"typedef-dialect-dependent:{ct}" if ct != "unconditional" else f"typedef-dialect-dependent:{ns[0]}",
+                           {"headers": "all", "std": sa, "other_std": sb, "form": form, "typedef_sweep": True},
+                           f"type names defined under -std={sa} xor -std={sb} ({form} form): {ns}")
 
     # ---- vacuity guards ------------------------------------------------------
     main_td = per_file.get("_fake_typedefs.h", 0)
     if (len(hs) < 100 or main_td < 150 or n_total < len(hs) * len(STDS) * len(FORMS)
-            or nontriv < len(hs) * 4 or len(hashes) < 3 or (sweeps_ok and min(used_names) < 150)):
+            or nontriv < len(hs) * 4 or len(hashes) < 3 or (sweeps_ok and min(used_names) < 150)
+            or len(pairs_covered) < (len(hs) - 1) * len(FORMS) or (sweeps_ok == len(sweep_tasks) and dialect_diffs < 12)):
         R.fail("vacuous", {"headers": len(hs), "typedef_names": main_td, "runs": n_total,
                            "nontrivial": nontriv, "distinct_asts": len(hashes), "used_names": used_names},
                "too few headers / typedef names / runs, or the ASTs are empty")
@@ -397,7 +491,12 @@ def _run(R, tier, hs, S):
     R.set("headers_found", len(hs))
     R.set("typedef_names_per_file", per_file)
     R.set("typedef_names_distinct", len(names))
-    R.set("typedef_names_conditional", [f"{n} ({c[0]} {c[1]})" for n, c in names if c])
+    R.set("typedef_names_conditional", [f"{n} ({cond_text(c)})" for n, c in names if c])
+    R.set("typedef_names_excused_per_dialect", {std: sorted(n for n, c in names if excused(c, set(macros[std]))) for std in STDS})
+    R.set("typedef_names_in_ast_per_dialect", {f"{k[0]}/{k[1]}": len(v[0]) for k, v in sorted(tsets.items())})
+    R.set("dialect_pairs_compared", dialect_diffs)
+    R.set("same_path_rewrite_steps", rewrite_steps)
+    R.set("same_path_consecutive_pairs_covered", len(pairs_covered))
     R.set("typedef_names_declared_per_sweep", used_names)
     R.set("single_header_cells", len(cells))
     R.set("all_in_one_cells", len(multi))
@@ -406,11 +505,12 @@ def _run(R, tier, hs, S):
     R.set("headers_with_empty_ast", sorted(h for h, k in ext_counts.items() if k == 0))
     R.set("top_level_nodes_per_header_min_max", [min(ext_counts.values() or [0]), max(ext_counts.values() or [0])])
     R.set("bounds", {"headers": len(hs), "dialects": STDS, "cpp_args_forms": FORMS,
-                     "orders": ["single", "all forward", "all reversed"] + (["all ordered pairs (c99, list)"] if pairs else []),
+                     "orders": ["single", "all forward", "all reversed", "same path rewritten for consecutive headers"] + (["all ordered pairs (c99, list)"] if pairs else []),
                      "string_form_include_dir": "symlink whose name contains a space"})
     R.assumptions += [
         "cpp is the system's GNU cpp; without -nostdinc, as the property states (-I only)",
-        "typedef names guarded by #ifdef M are required only under dialects where cpp predefines M",
+        "a typedef name may be missing in a dialect only under a pure defined-ness test (#ifdef/#ifndef/#if [!]defined) that is "
+        "false for cpp's predefined macros of that dialect; names under any other #if are required in all four dialects",
     ]
     samples = [{"header": c[0][0], "std": c[2], "form": c[3]} for c in core.pick_samples(cells, 9)]
     samples += [{"headers": m[0][0], "std": m[2], "form": m[3]} for m in multi[:2]]
@@ -418,7 +518,8 @@ def _run(R, tier, hs, S):
     return R.finish(
         samples,
         "every header x 4 dialects x 2 cpp_args forms through parse_file(use_cpp=True); all headers in one file "
-        "forward and reversed x 4 x 2; the typedef sweep x 4 x 2; thorough: every ordered pair of headers (c99, list form; "
+        "forward and reversed x 4 x 2; one scratch path rewritten for every consecutive header pair x 2 forms (dialects rotating; "
+        "all 4 in thorough); the typedef sweep x 4 x 2 (names required unless excused, usable as types, same set in all dialects); thorough: every ordered pair of headers (c99, list form; "
         "oracle: returns a FileAST). Each grid / all-in-one / sweep result compared (canon with coordinates) with "
         "CParser().parse(output of the same cpp command run by hand). non-trivial = runs whose AST has at least "
         "one top-level node",
@@ -438,12 +539,26 @@ def replay(rep):
             seen = set()
             names = [(n, k) for n, k in names if not (n in seen or seen.add(n))]
             macros = predefined_macros(c["std"])
-            cf = S.cfile("sweep.c", hs, sweep_tail(names, macros))
-            fails, used, ok = _sweep_work((sc, hs, cf, c["std"], c["form"], names, sorted(macros)))
+            allf = S.cfile("all_forward.c", hs)
+            fails, used, T, exc = _sweep_work((sc, hs, allf, os.path.join(S.dir, "sweep.c"), c["std"], c["form"], names, sorted(macros)))
+            if c.get("other_std") and T is not None:
+                m2 = predefined_macros(c["other_std"])
+                f2, _, T2, exc2 = _sweep_work((sc, hs, allf, os.path.join(S.dir, "sweep2.c"), c["other_std"], c["form"], names, sorted(m2)))
+                diff = sorted((set(T) ^ set(T2 or [])) - set(exc) - set(exc2))
+                if diff:
+                    fails = fails + f2 + [("typedef-dialect-dependent", {}, f"-std={c['std']} vs -std={c['other_std']}: {diff}")]
             for f in fails[:10]:
                 print("problem:", f[0], "|", f[2])
             if not fails:
                 print(f"typedef sweep fine: {used} names declared and found, -std={c['std']} {c['form']} form")
+            return 1 if fails else 0
+        if "rewrite_chain" in c:
+            chain = list(enumerate(c["rewrite_chain"], c.get("first_index", 0)))
+            steps, fails = _rewrite_work((sc, os.path.join(S.dir, "scratch.c"), chain, c["std"], c["form"]))
+            for f in fails[:10]:
+                print("problem:", f[0], "|", f[2])
+            if not fails:
+                print(f"{steps} rewrites of one path parsed correctly, -std={c['std']} {c['form']} form")
             return 1 if fails else 0
         sel = c["headers"]
         if sel == ["<all, directory order>"]:
